@@ -189,8 +189,14 @@ impl SlabRouter {
                 if let Some(TensorValue::Vector(vec)) = value.get("_embedding") {
                     // Try to store in embedding slab; if dimension mismatch, just use metadata
                     if self.embeddings.set(entity_id, vec).is_err() {
-                        // Dimension mismatch - store in metadata only (this is fine)
+                        // Dimension mismatch - store in metadata only (this is fine);
+                        // a vector of an earlier write must not outlive this one
+                        self.embeddings.delete(entity_id);
                     }
+                } else {
+                    // The new value carries no embedding: drop the vector of an earlier
+                    // write, or `get` would return it as part of this value.
+                    self.embeddings.delete(entity_id);
                 }
                 // Also store metadata (always includes the embedding for retrieval)
                 self.metadata.set(key, value);
@@ -662,7 +668,8 @@ impl SlabRouter {
                 self.metadata.set(key, data.clone());
                 // `put` registers every embedding-class key in the entity index; do the
                 // same here so that replay assigns the entity ids the live store logged.
-                if Self::classify_key(key) == KeyClass::Embedding {
+                let is_embedding_key = Self::classify_key(key) == KeyClass::Embedding;
+                if is_embedding_key {
                     let _ = self.index.get_or_create(key);
                 }
                 // Also update embeddings if present
@@ -675,6 +682,14 @@ impl SlabRouter {
                             error = %e,
                             "Failed to restore embedding during WAL replay"
                         );
+                        if is_embedding_key {
+                            self.embeddings.delete(entity_id);
+                        }
+                    }
+                } else if is_embedding_key {
+                    // as in `put`: a value without embedding drops the earlier vector
+                    if let Some(entity_id) = self.index.get(key) {
+                        self.embeddings.delete(entity_id);
                     }
                 }
             },
